@@ -86,6 +86,8 @@ fn main() {
             for k in 0..cli.tier.pick(1u64, 4) {
                 hs.push(history::generate_long_life(cli.seed, n + k));
             }
+            // one fleet of more than a thousand ready servers
+            hs.push(history::generate_big_fleet(cli.seed, n + 8));
             (hs, false)
         }
     };
